@@ -120,6 +120,13 @@ static std::vector<Cat> catalogue() {
   { Cat* x = ok("print \"out\" 1;\n", [](MCtx&) {}); x->out = "out1\n"; }
   ok("function FA(P) return integer is\nbegin\n  Q = P + 1;\n  return Q;\nend;\n", [](MCtx& m) { m.funcs["FA"] = true; });
   ok("A = FA(10);\n", [](MCtx& m) { m.vars["A"] = mv_int(11); }, [](const MCtx& m) { return m.funcs.count("FA") > 0; });
+  // the same function declared by a second executable with another frame layout: running the executables alternately re-installs each body
+  ok("function FA(P) return integer is\nbegin\n  Q = P + 1;\n  R1 = Q * 2;\n  R2 = str(R1) + \"x\";\n  R3 = tab(2, Q);\n  for R4 in 1 to 2 loop\n    R5 = R4 + Q;\n  end loop;\n  return Q;\nend;\n", [](MCtx& m) { m.funcs["FA"] = true; });
+  ok("function FA(P) return integer is\nbegin\n  Q = P + 1;\n  R1 = Q * 2;\n  R2 = str(R1) + \"y\";\n  R3 = tab(3, Q);\n  R6 = R3.count() + R1;\n  return Q;\nend;\nA = FA(30);\n", [](MCtx& m) { m.funcs["FA"] = true; m.vars["A"] = mv_int(31); });
+  ok("function FA(P) return integer is\nbegin\n  return P + 1;\nend;\nA = FA(40);\n", [](MCtx& m) { m.funcs["FA"] = true; m.vars["A"] = mv_int(41); });
+  ok("A = FA(20);\nA = FA(A);\n", [](MCtx& m) { m.vars["A"] = mv_int(22); }, [](const MCtx& m) { return m.funcs.count("FA") > 0; });
+  // a branch that is compiled but not taken gives a variable two other types: the variable and its compile-time view stay what they were
+  ok("if A > 1000000 then\n  A = \"text\";\n  A = 2.5;\nend if;\n", [](MCtx&) {}, [](const MCtx& m) { auto it = m.vars.find("A"); return it != m.vars.end() && it->second.known && !it->second.null && it->second.major == INTEGER && it->second.ndim == 0 && it->second.i <= 1000000; });
   ok("begin\n  A = 1;\n  raise OOPS;\nexception\nwhen OOPS then\n  A = 2;\nend;\n", [](MCtx& m) { m.vars["A"] = mv_int(2); });
   ok("import vf;\nO = vf(3);\nA = O.tag();\n", [](MCtx& m) { m.vars["A"] = mv_int(3); MV o; o.major = COMPLEX; o.null = false; o.known = false; m.vars["O"] = o; });
   // runtime errors: the statements in front of the error have run
@@ -141,7 +148,8 @@ static std::vector<Cat> catalogue() {
   auto has_tab = [](const MCtx& m) { auto it = m.vars.find("T"); return it != m.vars.end() && it->second.known && it->second.ndim == 1 && !it->second.null; };
   auto pe2 = [&](const std::string& t, std::function<bool(const MCtx&)> u) { Cat x; x.text = t; x.kind = P_PARSE; x.err = 0; x.effect = [](MCtx&) {}; x.usable = u; c.push_back(x); };
   pe2("forall E in T loop\n  A = ;\nend loop;\n", has_tab); pe2("forall E in T loop end loop;\n", has_tab); pe2("forall E in T loop\n  forall F in T loop\n    A = (;\n  end loop;\nend loop;\n", has_tab);
-  pe2("forall E in T loop\n  print E;\n", has_tab); pe2("for I in 1 to 3 loop\n  forall E in T loop\n    A = I +;\n  end loop;\nend loop;\n", has_tab);
+  pe2("forall E in T loop\n  print E;\n", has_tab);
+  pe2("begin\n  A = \"x\";\n  A = 1.5;\n  A = ;\nend;\n", [](const MCtx& m) { return has_int(m, "A"); }); pe2("for I in 1 to 3 loop\n  forall E in T loop\n    A = I +;\n  end loop;\nend loop;\n", has_tab);
   ok("do T.concat(4);\nforall E in T loop\n  E = E + 0;\nend loop;\n", [](MCtx& m) { m.vars["T"].tab.push_back(4); MV e; e.major = INTEGER; e.null = true; m.vars["E"] = e; }, has_tab);
   return c;
 }
